@@ -25,6 +25,8 @@ ALLOC_FREE = [["alloc_bytes", 2], ["free_last"]]
 DEALLOC = [["free_given", 2, 3, 0]]
 DEALLOC_ALLOC = [["free_given", 2, 3, 0], ["alloc_bytes", 4]]
 TOUCH_DEALLOC = [["touch_given", 2, 3], ["free_given", 2, 3, 0]]
+ALLOC_DROP = [["alloc_bytes", 2], ["check_last"], ["drop_arena"]]
+TOUCH_DROP = [["touch_given", 2, 3], ["clone_drop"], ["drop_arena"]]
 
 
 class Q:
@@ -47,7 +49,7 @@ class Q:
             args["1"].update({"0": given[0], "1": given[1]})
         if self.p2 is not None:
             args["2"] = {}
-            if any(a[0] == "free_given" for a in self.p2):
+            if any(a[0] in ("free_given", "touch_given") for a in self.p2):
                 args["2"].update({"0": given[0], "1": given[1]})
                 if any(a[0] == "alloc_bytes" for a in self.p2):
                     args["2"]["2"] = list(self.n2 or self.n1)
@@ -98,6 +100,9 @@ def families():
     qs.append(Q("hb_toprelease_then_bump_none_sw2", ["C12"], "quick", "hb", "None", "S_E", ALLOC_FREE, TOUCH_DEALLOC, [14, 7], 2, 2, n1=(1, 24)))
     qs.append(Q("hb_dealloc_then_alloc_pess_sw2", ["C12"], "thorough", "hb", "Pessimistic", "S_HN", ALLOC_FREE, TOUCH_DEALLOC, [30, 17], 2, 2, n1=(1, 16)))
     qs.append(Q("hb_dealloc_then_alloc_opt_sw3", ["C12"], "thorough", "hb", "Optimistic", "S_HN", ALLOC_FREE, TOUCH_DEALLOC, [30, 17], 3, 1, n1=(1, 16), timeout=1800))
+    # --- C12 / C13: teardown - two threads each hold an arena value, use the memory, and drop it
+    qs.append(Q("teardown_two_holders_sw2", ["C12", "C13"], "quick", "teardown", "None", "S_E", ALLOC_DROP, TOUCH_DROP, [12, 12], 2, 1, n1=(1, 24)))
+    qs.append(Q("teardown_two_holders_sw3", ["C12", "C13"], "thorough", "teardown", "None", "S_E", ALLOC_DROP, TOUCH_DROP, [12, 12], 3, 2, n1=(1, 24)))
     # --- C06: crash of the victim at any step of its operation, reopen, one more operation by a fresh thread
     qs.append(Q("crash_in_alloc_opt", ["C06"], "quick", "crash", "Optimistic", "S_H", ALLOC, ALLOC, [22, 22], 1, 1, n1=(1, 16), role="crash_between_mark_and_unlink"))
     qs.append(Q("crash_in_dealloc_opt", ["C06"], "quick", "crash", "Optimistic", "S_HN", DEALLOC, ALLOC, [14, 22], 1, 1, n1=(1, 24)))
@@ -189,6 +194,8 @@ def replay_input(cex, path, file_path=None):
                 acts.append("free_given:%d:%d:%d" % (args[a[1] - 2], args[a[2] - 2], a[3]))
             elif a[0] == "touch_given":
                 acts.append("touch_given:%d:%d" % (args[a[1] - 2], args[a[2] - 2]))
+            elif a[0] in ("drop_arena", "clone_drop", "check_last"):
+                acts.append(a[0])
             elif a[0] == "discard":
                 acts.append("discard")
         L.append("prog %d %s" % (ti, " ".join(acts)))
@@ -206,7 +213,7 @@ def replay_input(cex, path, file_path=None):
         tr.append("%d:%s" % (s["thread"], str(s["addr"]) if "addr" in s and s["addr"] < cex["cap"] else "-"))
     L.append("trace " + " ".join(tr))
     what = cex["what"]
-    L.append("expect " + {"safe": "violation", "live": "hang", "crash": "hang_or_violation", "hb": "race"}[what])
+    L.append("expect " + {"safe": "violation", "live": "hang", "crash": "hang_or_violation", "hb": "race", "teardown": "race"}[what])
     if "spin" in cex:
         L.append("spinner %d" % cex["spin"]["thread"])
     if what == "crash":
@@ -378,7 +385,7 @@ def run(pid, tier, queries, scratch, logdir, known):
                     else:
                         out["inconclusive"].append("%s: translator self-test failed: the encoding's final memory differs from the real code's (or the replay diverged: exit %s)" % (q.name, rcode))
                 else:
-                    what = {"safe": "violation", "live": "hang", "crash": "crash", "hb": "race"}[cex["what"]]
+                    what = {"safe": "violation", "live": "hang", "crash": "crash", "hb": "race", "teardown": "race"}[cex["what"]]
                     desc = ""
                     if cex.get("spin"):
                         sp_ = cex["spin"]
@@ -496,7 +503,7 @@ def replay_from_file(path):
     logdir = os.path.join(scratch, "logs")
     os.makedirs(logdir, exist_ok=True)
     rc = C.copy_repo(scratch)
-    if rec.get("cex", {}).get("what") == "hb":
+    if rec.get("cex", {}).get("what") in ("hb", "teardown"):
         # a data race is not observable by a plain run: the saved schedule is re-judged by re-deciding its query family on the current tree
         qs = [q for q in families() if q.name == rec["query"]]
         out = run(rec["property"], "thorough", qs, scratch, logdir, C.load_known())
